@@ -34,7 +34,12 @@ pub struct Case {
 }
 
 /// names relative to the directory; initial state see `initial()`
-const TARGETS: [&str; 8] = ["short.bin", "long.bin", "missing.bin", "sub/inner.bin", "sub/missing.bin", "empty.bin", "other.bin", "/short.bin"];
+const TARGETS: [&str; 11] = ["short.bin", "long.bin", "missing.bin", "sub/inner.bin", "sub/missing.bin", "empty.bin", "other.bin", "/short.bin", "short.bin/child.bin", "LONGNAME", "sub/LONGNAME"];
+
+/// missing names whose lookup fails in unusual ways (below a regular file; a component longer than 255 bytes): read requests only
+fn odd_target(t: &str) -> bool {
+    t.contains("LONGNAME") || t.contains(".bin/")
+}
 
 fn initial(seed: u64) -> BTreeMap<String, Vec<u8>> {
     let mut m = BTreeMap::new();
@@ -99,7 +104,10 @@ fn run_case(dir: &Path, c: &Case) -> Result<Vec<&'static str>, (String, String)>
     };
     let mut classes = vec![];
     for (i, st) in c.steps.iter().enumerate() {
-        let target = TARGETS[st.target as usize % TARGETS.len()];
+        let target_s = TARGETS[st.target as usize % TARGETS.len()].replace("LONGNAME", &"n".repeat(300));
+        let target = target_s.as_str();
+        let st_write = st.write && !odd_target(TARGETS[st.target as usize % TARGETS.len()]);
+        let st = &Step { write: st_write, ..st.clone() };
         let key = norm(target);
         let cl = Client::new();
         let what = format!("step {} {} {:?} opts {:?}", i, if st.write { "WRQ" } else { "RRQ" }, target, st.opts);
@@ -265,7 +273,7 @@ fn opts() -> BoxedStrategy<Vec<(String, String)>> {
 }
 
 pub fn strategy() -> BoxedStrategy<Case> {
-    let step = (any::<bool>(), 0u8..8, opts(), prop::sample::select(vec![0usize, 1, 40, 100, 512, 600, 2000, 3500]), prop_oneof![9 => Just(None), 1 => (0usize..3).prop_map(Some)]).prop_map(|(write, target, opts, upload_len, abort_after)| {
+    let step = (any::<bool>(), 0u8..11, opts(), prop::sample::select(vec![0usize, 1, 40, 100, 512, 600, 2000, 3500]), prop_oneof![9 => Just(None), 1 => (0usize..3).prop_map(Some)]).prop_map(|(write, target, opts, upload_len, abort_after)| {
         // small blksize with a long upload would need hundreds of round trips
         let upload_len = if opts.iter().any(|(n, v)| n == "blksize" && v == "8") { upload_len.min(100) } else { upload_len };
         Step { write, target, opts, upload_len, abort_after }
